@@ -1,9 +1,14 @@
 (** C05 (c): histories.  For every sequence of builder calls interleaved with mutations of the
     caller's gate objects (attribute assignment / mutators on the object itself or on targets
-    reached through target_gate()/target_gates(), assignment of gate-valued fields), every
-    circuit denotes the gates as they were when added -- provided every __copy__ is deep in
-    its gate-valued fields.  Invariant: no object of a circuit is reachable from a caller
-    handle.  Conversely a single shallow rule on a class with a gate-valued field breaks it. *)
+    reached through target_gate()/target_gates(), assignment of gate-valued fields), with
+    circuits made by the list constructor from the caller's objects and with mutations through
+    a circuit's own gate list (c.gates[i]...), every circuit that was not made by a non-copying
+    list constructor denotes the gates as they were when added (and as mutated through its own
+    gate list) -- provided every __copy__ is deep in its gate-valued fields.
+    Invariant: the objects of such a circuit are pairwise distinct, not reachable from a caller
+    handle and not shared with any other circuit.  Conversely a single shallow rule on a class
+    with a gate-valued field breaks it, and so does the non-copying list constructor for the
+    circuit it makes. *)
 From Qib Require Export Embed.HeapModel.
 From Coq Require Import List Arith ZArith Bool Lia.
 Import ListNotations.
@@ -79,6 +84,21 @@ Proof.
     split; [eapply nth_error_In; exact E|apply IH; exact H].
 Qed.
 
+
+Lemma nodup_app {A} (a b : list A) : NoDup a -> NoDup b -> (forall x, In x a -> ~ In x b) -> NoDup (a ++ b).
+Proof.
+  induction a as [|y a IH]; intros Ha Hb Hd; [exact Hb|]. inversion Ha as [|? ? Hy Ha']; subst. cbn. constructor.
+  - intros Hin. apply in_app_or in Hin. destruct Hin as [Hin|Hin]; [contradiction|]. apply (Hd y); [left; reflexivity|exact Hin].
+  - apply IH; [exact Ha'|exact Hb|]. intros x Hx. apply Hd. right. exact Hx.
+Qed.
+Lemma nodup_app_inv {A} (a b : list A) : NoDup (a ++ b) -> NoDup a /\ NoDup b /\ (forall x, In x a -> ~ In x b).
+Proof.
+  induction a as [|y a IH]; intros H; [split; [constructor|split; [exact H|intros x []]]|].
+  cbn in H. inversion H as [|? ? Hy H']; subst. destruct (IH H') as [A1 [A2 A3]]. split; [|split; [exact A2|]].
+  - constructor; [|exact A1]. intros Hin. apply Hy. apply in_or_app. left. exact Hin.
+  - intros x [<-|Hx] Hb; [apply Hy; apply in_or_app; right; exact Hb|apply (A3 x Hx Hb)].
+Qed.
+
 (* ------------------------------------------------------------------ copy *)
 Section Copy.
   Variable deep : nat -> bool.
@@ -148,14 +168,32 @@ Section Copy.
     - pose proof (copy_fresh k n y) as F. rewrite Ek in F. cbn in F. specialize (F Hy). lia.
     - specialize (IH n1 y). rewrite El in IH. cbn in IH. specialize (IH Hy). lia.
   Qed.
+  Lemma copy_list_nodup_aux l :
+    Forall (fun g => forall n, NoDup (ids (fst (copy deep n g)))) l ->
+    forall n, NoDup (ids_l (fst (copy_list deep n l))).
+  Proof.
+    induction l as [|k l IH]; intros HF n; [constructor|]. inversion HF as [|? ? Hk Hl]; subst. cbn [copy_list].
+    destruct (copy deep n k) as [k' n1] eqn:Ek. destruct (copy_list deep n1 l) as [l'' n2] eqn:El.
+    cbn [fst]. unfold ids_l. cbn [flat_map]. apply nodup_app.
+    - specialize (Hk n). rewrite Ek in Hk. exact Hk.
+    - specialize (IH Hl n1). rewrite El in IH. exact IH.
+    - intros x Hx Hy.
+      pose proof (copy_fresh k n x) as F1. rewrite Ek in F1. cbn in F1. specialize (F1 Hx).
+      pose proof (copy_list_fresh l n1 x) as F2. rewrite El in F2. cbn in F2. specialize (F2 Hy). lia.
+  Qed.
+  Lemma copy_nodup g : forall n, NoDup (ids (fst (copy deep n g))).
+  Proof.
+    induction g as [i cls ps ks IH] using gobj_ind'. intros n. rewrite copy_unfold, all_deep.
+    pose proof (copy_list_nodup_aux ks IH n) as ND.
+    pose proof (copy_list_fresh ks n) as Fr.
+    destruct (copy_list deep n ks) as [ks' n']. cbn [fst snd ids] in *. constructor; [|exact ND].
+    intros Hin. specialize (Fr n' Hin). lia.
+  Qed.
+  Lemma copy_list_nodup l n : NoDup (ids_l (fst (copy_list deep n l))).
+  Proof. apply copy_list_nodup_aux. apply Forall_forall. intros g _. apply copy_nodup. Qed.
 End Copy.
 
-(* ------------------------------------------------------------------ invariant *)
-Definition Inv (s : state) (v : list (list gval)) : Prop :=
-  (forall i, In i (ids_l (handles s)) -> i < next_id s) /\
-  (forall c, In c (circuits s) -> forall i, In i (ids_l c) -> i < next_id s /\ ~ In i (ids_l (handles s))) /\
-  map (map erase) (circuits s) = v.
-
+(* ------------------------------------------------------------------ lists, indices *)
 Lemma ids_l_app a b : ids_l (a ++ b) = ids_l a ++ ids_l b.
 Proof. apply flat_map_app. Qed.
 Lemma ids_l_in g l i : In g l -> In i (ids g) -> In i (ids_l l).
@@ -165,13 +203,48 @@ Lemma nth_error_map' {A B} (f : A -> B) l k : nth_error (map f l) k = option_map
 Proof. revert k; induction l as [|x l IH]; intros [|k]; cbn; auto. Qed.
 Lemma map_replace_nth {A B} (f : A -> B) i a l : map f (replace_nth i a l) = replace_nth i (f a) (map f l).
 Proof. revert i; induction l as [|x l IH]; intros [|i]; cbn; try reflexivity. rewrite IH. reflexivity. Qed.
-
-Lemma in_upd_circ cs k f c : In c (upd_circ cs k f) ->
-  In c cs \/ exists l, nth_error cs k = Some l /\ c = f l.
+Lemma length_replace_nth {A} i (a : A) l : length (replace_nth i a l) = length l.
+Proof. revert i; induction l as [|x l IH]; intros [|i]; cbn; auto. Qed.
+Lemma replace_nth_same {A} i (a : A) l : nth_error l i = Some a -> replace_nth i a l = l.
+Proof. revert i; induction l as [|x l IH]; intros [|i] H; cbn in *; try discriminate; [congruence|]. rewrite IH by exact H. reflexivity. Qed.
+Lemma nth_error_replace_nth {A} (l : list A) c c' a :
+  nth_error (replace_nth c a l) c' = if Nat.eqb c' c then option_map (fun _ => a) (nth_error l c') else nth_error l c'.
 Proof.
-  unfold upd_circ. destruct (nth_error cs k) as [l|] eqn:E; [|left; assumption].
-  intros H. apply in_replace_nth in H. destruct H as [->|H]; [right; exists l; split; reflexivity|left; exact H].
+  revert c c'; induction l as [|x l IH]; intros c c'.
+  - replace (replace_nth c a []) with (@nil A) by (destruct c; reflexivity).
+    destruct (Nat.eqb c' c); destruct c'; reflexivity.
+  - destruct c as [|c], c' as [|c']; cbn [replace_nth nth_error Nat.eqb option_map]; try reflexivity. apply IH.
 Qed.
+Lemma nth_error_snoc {A} (l : list A) a c :
+  nth_error (l ++ [a]) c = if Nat.ltb c (length l) then nth_error l c else if Nat.eqb c (length l) then Some a else None.
+Proof.
+  destruct (Nat.ltb_spec c (length l)) as [H|H]; [apply nth_error_app1; exact H|].
+  rewrite nth_error_app2 by exact H. destruct (Nat.eqb_spec c (length l)) as [->|Hne].
+  - rewrite Nat.sub_diag. reflexivity.
+  - destruct (c - length l) as [|k] eqn:E; [lia|]. destruct k; reflexivity.
+Qed.
+Lemma nth_error_lt {A} (l : list A) c x : nth_error l c = Some x -> c < length l.
+Proof. intros H. apply nth_error_Some. rewrite H. discriminate. Qed.
+
+Lemma nth_upd_circ cs c f c' :
+  nth_error (upd_circ cs c f) c' = if Nat.eqb c' c then option_map f (nth_error cs c') else nth_error cs c'.
+Proof.
+  unfold upd_circ. destruct (nth_error cs c) as [l|] eqn:E.
+  - rewrite nth_error_replace_nth. destruct (Nat.eqb_spec c' c) as [->|]; [rewrite E|]; reflexivity.
+  - destruct (Nat.eqb_spec c' c) as [->|]; [rewrite E|]; reflexivity.
+Qed.
+Lemma length_upd_circ cs c f : length (upd_circ cs c f) = length cs.
+Proof. unfold upd_circ. destruct (nth_error cs c); [apply length_replace_nth|reflexivity]. Qed.
+Lemma nth_gupd gh c f c' :
+  nth_error (gupd gh c f) c' =
+  if Nat.eqb c' c then option_map (fun bl => (fst bl, f (snd bl))) (nth_error gh c') else nth_error gh c'.
+Proof.
+  unfold gupd. destruct (nth_error gh c) as [[b l]|] eqn:E.
+  - rewrite nth_error_replace_nth. destruct (Nat.eqb_spec c' c) as [->|]; [rewrite E|]; reflexivity.
+  - destruct (Nat.eqb_spec c' c) as [->|]; [rewrite E|]; reflexivity.
+Qed.
+Lemma length_gupd gh c f : length (gupd gh c f) = length gh.
+Proof. unfold gupd. destruct (nth_error gh c) as [[b l]|]; [apply length_replace_nth|reflexivity]. Qed.
 
 Lemma map_set_params_id x ps (c : list gobj) : ~ In x (ids_l c) -> map (set_params x ps) c = c.
 Proof.
@@ -186,74 +259,223 @@ Qed.
 Lemma ids_l_set_params x ps l : ids_l (map (set_params x ps) l) = ids_l l.
 Proof. unfold ids_l. induction l as [|g l IH]; [reflexivity|]. cbn. rewrite ids_set_params, IH. reflexivity. Qed.
 
-(** a mutation of an object of the caller leaves every circuit untouched *)
-Lemma circuits_untouched s v x (F : nat -> gobj -> gobj) :
-  Inv s v -> In x (ids_l (handles s)) ->
-  (forall c, ~ In x (ids_l c) -> map (F x) c = c) ->
-  map (map (F x)) (circuits s) = circuits s.
+Lemma nodup_ids_l_in l g : NoDup (ids_l l) -> In g l -> NoDup (ids g).
 Proof.
-  intros [_ [I2 _]] Hx HF. rewrite <- (map_id (circuits s)) at 2. apply map_ext_in. intros c Hc.
-  apply HF. intros Hin. destruct (I2 c Hc x Hin) as [_ N]. contradiction.
+  induction l as [|g0 l IH]; intros ND Hin; [destruct Hin|]. destruct Hin as [<-|Hg].
+  - unfold ids_l in ND. cbn in ND. apply nodup_app_inv in ND. tauto.
+  - unfold ids_l in ND. cbn in ND. apply nodup_app_inv in ND. apply IH; tauto.
 Qed.
 
-Lemma inv_builder s v c new n' (f : list gobj -> list gobj) (fv : list gval -> list gval) :
-  Inv s v -> next_id s <= n' ->
-  (forall i, In i (ids_l new) -> next_id s <= i < n') ->
-  (forall l i, In i (ids_l (f l)) -> In i (ids_l l) \/ In i (ids_l new)) ->
-  (forall l, map erase (f l) = fv (map erase l)) ->
-  Inv {| handles := handles s; circuits := upd_circ (circuits s) c f; next_id := n' |}
-      (match nth_error v c with Some l => replace_nth c (fv l) v | None => v end).
+(** in a list of pairwise distinct objects a relabelling touches exactly the object that carries the label *)
+Lemma map_set_params_at x ps : forall (l : list gobj) i g,
+  NoDup (ids_l l) -> nth_error l i = Some g -> In x (ids g) ->
+  map (set_params x ps) l = replace_nth i (set_params x ps g) l.
 Proof.
-  intros [I1 [I2 I3]] Hn Hnew Hf Hfv. split; [|split]; cbn [handles circuits next_id].
-  - intros i Hi. specialize (I1 i Hi). lia.
-  - intros c' Hc' i Hi. apply in_upd_circ in Hc'. destruct Hc' as [Hc'|[l [El ->]]].
-    + destruct (I2 c' Hc' i Hi) as [A B]. split; [lia|exact B].
-    + destruct (Hf l i Hi) as [Hl|Hl].
-      * apply nth_error_In in El. destruct (I2 l El i Hl) as [A B]. split; [lia|exact B].
-      * specialize (Hnew i Hl). split; [lia|]. intros Hh. specialize (I1 i Hh). lia.
-  - subst v. unfold upd_circ. rewrite nth_error_map'.
-    destruct (nth_error (circuits s) c) as [l|]; cbn [option_map]; [|reflexivity].
-    rewrite map_replace_nth, Hfv. reflexivity.
+  induction l as [|g0 l IH]; intros i g ND Hn Hx; [destruct i; discriminate|].
+  unfold ids_l in ND. cbn [flat_map] in ND. apply nodup_app_inv in ND. destruct ND as [N0 [Nl Nd]].
+  destruct i as [|i]; cbn in Hn.
+  - injection Hn as ->. cbn [map replace_nth]. f_equal. apply map_set_params_id. apply Nd. exact Hx.
+  - cbn [map replace_nth]. f_equal.
+    + apply set_params_notin. intros H0. apply (Nd x H0). apply (ids_l_in g); [eapply nth_error_In; exact Hn|exact Hx].
+    + apply IH; assumption.
+Qed.
+
+(** a mutation at the end of a path, on an object graph without sharing, is the value-level [vset] *)
+Lemma erase_set_params_follow ps : forall path g t,
+  NoDup (ids g) -> follow g path = Some t -> erase (set_params (obj_id t) ps g) = vset path ps (erase g).
+Proof.
+  induction path as [|i path IH]; intros [j cls p0 ks] t ND H; cbn [follow] in H.
+  - injection H as <-. cbn [obj_id set_params erase vset]. rewrite Nat.eqb_refl. f_equal. f_equal.
+    apply map_set_params_id. cbn [ids] in ND. inversion ND; assumption.
+  - cbn [obj_kids] in H. destruct (nth_error ks i) as [k|] eqn:Ek; [|discriminate].
+    pose proof (follow_ids k path t H) as Hx. cbn [ids] in ND. inversion ND as [|? ? Hj Nks]; subst.
+    assert (Hxin : In (obj_id t) (flat_map ids ks)) by (apply (ids_l_in k); [eapply nth_error_In; exact Ek|exact Hx]).
+    cbn [set_params erase vset]. destruct (Nat.eqb_spec j (obj_id t)) as [->|Hne]; [contradiction|].
+    rewrite (map_set_params_at (obj_id t) ps ks i k Nks Ek Hx), map_replace_nth, nth_error_map', Ek. cbn [option_map].
+    rewrite (IH k t); [reflexivity| |exact H]. apply (nodup_ids_l_in ks); [exact Nks|eapply nth_error_In; exact Ek].
+Qed.
+Lemma vset_follow_none ps : forall path g, follow g path = None -> vset path ps (erase g) = erase g.
+Proof.
+  induction path as [|i path IH]; intros [j cls p0 ks] H; cbn [follow] in H; [discriminate|].
+  cbn [obj_kids] in H. cbn [erase vset]. rewrite nth_error_map'.
+  destruct (nth_error ks i) as [k|] eqn:Ek; cbn [option_map]; [|reflexivity].
+  rewrite (IH k H). rewrite replace_nth_same; [reflexivity|]. rewrite nth_error_map', Ek. reflexivity.
+Qed.
+Lemma erase_relabel_circuit ps l i g path t :
+  NoDup (ids_l l) -> nth_error l i = Some g -> follow g path = Some t ->
+  map erase (map (set_params (obj_id t) ps) l) = replace_nth i (vset path ps (erase g)) (map erase l).
+Proof.
+  intros ND Hn Hf. rewrite (map_set_params_at (obj_id t) ps l i g ND Hn (follow_ids g path t Hf)), map_replace_nth.
+  rewrite (erase_set_params_follow ps path g t); [reflexivity| |exact Hf].
+  apply (nodup_ids_l_in l); [exact ND|eapply nth_error_In; exact Hn].
+Qed.
+
+(* ------------------------------------------------------------------ invariant *)
+(** [pure]: the circuit is held by value.  Its objects are pairwise distinct, below next_id, not
+    reachable from a caller handle, not shared with any other circuit, and denote the ghost value. *)
+Definition Inv (s : state) (gh : ghost) : Prop :=
+  length gh = length (circuits s) /\
+  (forall x, In x (ids_l (handles s)) -> x < next_id s) /\
+  (forall c l x, nth_error (circuits s) c = Some l -> In x (ids_l l) -> x < next_id s) /\
+  (forall c l vl, nth_error (circuits s) c = Some l -> nth_error gh c = Some (true, vl) ->
+     NoDup (ids_l l) /\ map erase l = vl /\
+     (forall x, In x (ids_l l) -> ~ In x (ids_l (handles s))) /\
+     (forall x c' l', In x (ids_l l) -> c' <> c -> nth_error (circuits s) c' = Some l' -> ~ In x (ids_l l'))).
+
+Lemma init_inv : Inv init [].
+Proof.
+  split; [reflexivity|]. split; [intros x []|]. split; intros c; destruct c; cbn; intros; discriminate.
+Qed.
+
+(** relabelling events (attribute assignment on some object, anywhere in the heap) *)
+Lemma inv_relabel s gh (F : gobj -> gobj) gh' :
+  Inv s gh ->
+  (forall g y, In y (ids (F g)) -> In y (ids g) \/ In y (ids_l (handles s))) ->
+  length gh' = length gh ->
+  (forall c l vl', nth_error (circuits s) c = Some l -> nth_error gh' c = Some (true, vl') ->
+     exists vl, nth_error gh c = Some (true, vl) /\ ids_l (map F l) = ids_l l /\ map erase (map F l) = vl') ->
+  Inv (relabel F s) gh'.
+Proof.
+  intros [I0 [I1 [I2 I3]]] HF Hlen Hp.
+  assert (HFl : forall l y, In y (ids_l (map F l)) -> In y (ids_l l) \/ In y (ids_l (handles s))).
+  { intros l y Hy. apply in_flat_map in Hy. destruct Hy as [g' [Hg' Hy]]. apply in_map_iff in Hg'.
+    destruct Hg' as [g [<- Hg]]. destruct (HF g y Hy) as [A|A]; [left; apply (ids_l_in g); assumption|right; exact A]. }
+  split; [|split; [|split]]; cbn [relabel handles circuits next_id].
+  - rewrite map_length. congruence.
+  - intros x Hx. destruct (HFl _ x Hx) as [A|A]; apply I1; exact A.
+  - intros c l x Hc Hx. rewrite nth_error_map' in Hc. destruct (nth_error (circuits s) c) as [l0|] eqn:E; [|discriminate].
+    injection Hc as <-. destruct (HFl _ x Hx) as [A|A]; [apply (I2 c l0 x E A)|apply I1; exact A].
+  - intros c l vl' Hc Hg. rewrite nth_error_map' in Hc. destruct (nth_error (circuits s) c) as [l0|] eqn:E; [|discriminate].
+    injection Hc as <-. destruct (Hp c l0 vl' E Hg) as [vl [Hgh [Hids Her]]].
+    destruct (I3 c l0 vl E Hgh) as [P1 [P2 [P3 P4]]]. rewrite Hids. split; [exact P1|]. split; [exact Her|]. split.
+    + intros x Hx Hh. destruct (HFl _ x Hh) as [A|A]; apply (P3 x Hx A).
+    + intros x c' l' Hx Hne Hc'. rewrite nth_error_map' in Hc'.
+      destruct (nth_error (circuits s) c') as [l1|] eqn:E1; [|discriminate]. injection Hc' as <-.
+      intros Hin. destruct (HFl _ x Hin) as [A|A]; [apply (P4 x c' l1 Hx Hne E1 A)|apply (P3 x Hx A)].
+Qed.
+
+(** builder calls: fresh, pairwise distinct copies are put at one end of circuit c *)
+Lemma inv_builder s gh c new n' (f : list gobj -> list gobj) (fv : list gval -> list gval) :
+  Inv s gh -> next_id s <= n' ->
+  (forall x, In x (ids_l new) -> next_id s <= x < n') ->
+  NoDup (ids_l new) ->
+  (forall l x, In x (ids_l (f l)) <-> In x (ids_l l) \/ In x (ids_l new)) ->
+  (forall l, NoDup (ids_l l) -> (forall x, In x (ids_l l) -> ~ In x (ids_l new)) -> NoDup (ids_l (f l))) ->
+  (forall l, map erase (f l) = fv (map erase l)) ->
+  Inv {| handles := handles s; circuits := upd_circ (circuits s) c f; next_id := n' |} (gupd gh c fv).
+Proof.
+  intros [I0 [I1 [I2 I3]]] Hn Hnew NDnew Hf Hnd Hfv.
+  split; [|split; [|split]]; cbn [handles circuits next_id].
+  - rewrite length_gupd, length_upd_circ. exact I0.
+  - intros x Hx. specialize (I1 x Hx). lia.
+  - intros c1 l1 x Hc Hx. rewrite nth_upd_circ in Hc. destruct (Nat.eqb_spec c1 c) as [->|Hne].
+    + destruct (nth_error (circuits s) c) as [l|] eqn:E; [|discriminate]. injection Hc as <-.
+      apply Hf in Hx. destruct Hx as [A|A]; [specialize (I2 c l x E A); lia|specialize (Hnew x A); lia].
+    + specialize (I2 c1 l1 x Hc Hx). lia.
+  - intros c1 l1 vl1 Hc Hg. rewrite nth_upd_circ in Hc. rewrite nth_gupd in Hg.
+    destruct (Nat.eqb_spec c1 c) as [->|Hne].
+    + destruct (nth_error (circuits s) c) as [l|] eqn:E; [|discriminate]. injection Hc as <-.
+      destruct (nth_error gh c) as [[b vl]|] eqn:Eg; [|discriminate]. cbn in Hg. injection Hg as -> <-.
+      destruct (I3 c l vl E Eg) as [P1 [P2 [P3 P4]]].
+      assert (Hdis : forall x, In x (ids_l l) -> ~ In x (ids_l new)).
+      { intros x Hx Hy. specialize (I2 c l x E Hx). specialize (Hnew x Hy). lia. }
+      split; [apply Hnd; assumption|]. split; [rewrite Hfv, P2; reflexivity|]. split.
+      * intros x Hx Hh. apply Hf in Hx. destruct Hx as [A|A]; [apply (P3 x A Hh)|].
+        specialize (I1 x Hh). specialize (Hnew x A). lia.
+      * intros x c' l' Hx Hne Hc'. rewrite nth_upd_circ in Hc'. destruct (Nat.eqb_spec c' c) as [->|_]; [contradiction|].
+        apply Hf in Hx. destruct Hx as [A|A]; [apply (P4 x c' l' A Hne Hc')|].
+        intros Hin. specialize (I2 c' l' x Hc' Hin). specialize (Hnew x A). lia.
+    + destruct (I3 c1 l1 vl1 Hc Hg) as [P1 [P2 [P3 P4]]]. split; [exact P1|]. split; [exact P2|]. split; [exact P3|].
+      intros x c' l' Hx Hne' Hc'. rewrite nth_upd_circ in Hc'. destruct (Nat.eqb_spec c' c) as [->|Hne2].
+      * destruct (nth_error (circuits s) c) as [l|] eqn:E; [|discriminate]. injection Hc' as <-.
+        intros Hin. apply Hf in Hin. destruct Hin as [A|A]; [apply (P4 x c l Hx Hne' E A)|].
+        specialize (I2 c1 l1 x Hc Hx). specialize (Hnew x A). lia.
+      * apply (P4 x c' l' Hx Hne' Hc').
+Qed.
+
+(** a new circuit at the end: either made of fresh pairwise distinct objects (by value) or of caller objects *)
+Lemma inv_snoc s gh o b vl n' :
+  Inv s gh -> next_id s <= n' ->
+  (forall x, In x (ids_l o) -> (In x (ids_l (handles s)) /\ b = false) \/ next_id s <= x < n') ->
+  (b = true -> NoDup (ids_l o) /\ map erase o = vl) ->
+  Inv {| handles := handles s; circuits := circuits s ++ [o]; next_id := n' |} (gh ++ [(b, vl)]).
+Proof.
+  intros [I0 [I1 [I2 I3]]] Hn Ho Hb.
+  split; [|split; [|split]]; cbn [handles circuits next_id].
+  - rewrite !app_length, I0. reflexivity.
+  - intros x Hx. specialize (I1 x Hx). lia.
+  - intros c l x Hc Hx. rewrite nth_error_snoc in Hc. destruct (Nat.ltb c (length (circuits s))).
+    + specialize (I2 c l x Hc Hx). lia.
+    + destruct (Nat.eqb c (length (circuits s))); [|discriminate]. injection Hc as <-.
+      destruct (Ho x Hx) as [[A _]|A]; [specialize (I1 x A); lia|lia].
+  - intros c l vl1 Hc Hg. rewrite nth_error_snoc in Hc. rewrite nth_error_snoc in Hg. rewrite I0 in Hg.
+    destruct (Nat.ltb_spec c (length (circuits s))) as [Hlt|Hge].
+    + destruct (I3 c l vl1 Hc Hg) as [P1 [P2 [P3 P4]]]. split; [exact P1|]. split; [exact P2|]. split; [exact P3|].
+      intros x c' l' Hx Hne Hc'. rewrite nth_error_snoc in Hc'. destruct (Nat.ltb c' (length (circuits s))).
+      * apply (P4 x c' l' Hx Hne Hc').
+      * destruct (Nat.eqb c' (length (circuits s))); [|discriminate]. injection Hc' as <-.
+        intros Hin. destruct (Ho x Hin) as [[A _]|A]; [apply (P3 x Hx A)|specialize (I2 c l x Hc Hx); lia].
+    + destruct (Nat.eqb_spec c (length (circuits s))) as [->|]; [|discriminate]. injection Hc as <-. injection Hg as -> <-.
+      destruct (Hb eq_refl) as [B1 B2]. split; [exact B1|]. split; [exact B2|].
+      assert (Hfresh : forall x, In x (ids_l o) -> next_id s <= x).
+      { intros x Hx. destruct (Ho x Hx) as [[_ A]|A]; [discriminate|lia]. }
+      split.
+      * intros x Hx Hh. specialize (Hfresh x Hx). specialize (I1 x Hh). lia.
+      * intros x c' l' Hx Hne Hc'. rewrite nth_error_snoc in Hc'. destruct (Nat.ltb_spec c' (length (circuits s))).
+        -- intros Hin. specialize (Hfresh x Hx). specialize (I2 c' l' x Hc' Hin). lia.
+        -- destruct (Nat.eqb_spec c' (length (circuits s))); [contradiction|discriminate].
+Qed.
+
+(** the ghost may change on circuits that are not by value, and be restated on those that are *)
+Lemma inv_ghost s gh gh' :
+  Inv s gh -> length gh' = length gh ->
+  (forall c l vl', nth_error (circuits s) c = Some l -> nth_error gh' c = Some (true, vl') ->
+     exists vl, nth_error gh c = Some (true, vl) /\ map erase l = vl') ->
+  Inv s gh'.
+Proof.
+  intros [I0 [I1 [I2 I3]]] Hlen Hp. split; [congruence|]. split; [exact I1|]. split; [exact I2|].
+  intros c l vl' Hc Hg. destruct (Hp c l vl' Hc Hg) as [vl [Hgh Her]].
+  destruct (I3 c l vl Hc Hgh) as [P1 [_ [P3 P4]]]. split; [exact P1|]. split; [exact Her|]. split; [exact P3|exact P4].
+Qed.
+
+Lemma objs_of_ids s hs x : In x (ids_l (objs_of s hs)) -> In x (ids_l (handles s)).
+Proof.
+  intros Hi. apply in_flat_map in Hi. destruct Hi as [k [Hk Hi]]. unfold objs_of in Hk. apply in_flat_map in Hk.
+  destruct Hk as [hh [_ Hk]]. destruct (nth_error (handles s) hh) as [g|] eqn:E; [|destruct Hk].
+  destruct Hk as [<-|[]]. apply nth_error_In in E. apply (ids_l_in g); assumption.
 Qed.
 
 Section Step.
   Variable deep : nat -> bool.
+  Variable ctor : bool.
   Hypothesis all_deep : forall cls, deep cls = true.
 
-  Lemma step_inv s v e : Inv s v -> Inv (step deep s e) (vstep s v e).
+  Lemma step_inv s gh e : Inv s gh -> Inv (step deep ctor s e) (vstep ctor s gh e).
   Proof.
-    intros I. pose proof I as [I1 [I2 I3]].
-    destruct e as [cls ps kids| |h path ps|h path i h2|c h|c h|c c2|c c2]; cbn [step vstep].
+    intros I. pose proof I as [I0 [I1 [I2 I3]]].
+    destruct e as [cls ps kids| |h path ps|h path i h2|c h|c h|c c2|c c2|hs|c i path ps]; cbn [step vstep].
     - (* ENew *)
-      set (ks := flat_map _ kids).
-      assert (Hks : forall i, In i (flat_map ids ks) -> In i (ids_l (handles s))).
-      { intros i Hi. apply in_flat_map in Hi. destruct Hi as [k [Hk Hi]].
-        unfold ks in Hk. apply in_flat_map in Hk. destruct Hk as [hh [_ Hk]].
-        destruct (nth_error (handles s) hh) as [g|] eqn:E; [|destruct Hk].
-        destruct Hk as [<-|[]]. apply nth_error_In in E. apply (ids_l_in g); assumption. }
-      split; [|split]; cbn [handles circuits next_id].
-      + intros i Hi. rewrite ids_l_app in Hi. apply in_app_or in Hi. destruct Hi as [Hi|Hi].
-        * specialize (I1 i Hi). lia.
-        * unfold ids_l in Hi. cbn in Hi. rewrite app_nil_r in Hi. destruct Hi as [<-|Hi]; [lia|].
-          specialize (I1 i (Hks i Hi)). lia.
-      + intros c Hc i Hi. destruct (I2 c Hc i Hi) as [A B]. split; [lia|].
-        rewrite ids_l_app. intros Hx. apply in_app_or in Hx. destruct Hx as [Hx|Hx]; [contradiction|].
+      split; [|split; [|split]]; cbn [handles circuits next_id].
+      + exact I0.
+      + intros x Hx. rewrite ids_l_app in Hx. apply in_app_or in Hx. destruct Hx as [Hx|Hx]; [specialize (I1 x Hx); lia|].
         unfold ids_l in Hx. cbn in Hx. rewrite app_nil_r in Hx. destruct Hx as [<-|Hx]; [lia|].
-        apply B, Hks, Hx.
-      + exact I3.
+        specialize (I1 x (objs_of_ids s kids x Hx)). lia.
+      + intros c l x Hc Hx. specialize (I2 c l x Hc Hx). lia.
+      + intros c l vl Hc Hg. destruct (I3 c l vl Hc Hg) as [P1 [P2 [P3 P4]]]. split; [exact P1|]. split; [exact P2|].
+        split; [|exact P4]. intros x Hx Hh. rewrite ids_l_app in Hh. apply in_app_or in Hh.
+        destruct Hh as [Hh|Hh]; [apply (P3 x Hx Hh)|]. unfold ids_l in Hh. cbn in Hh. rewrite app_nil_r in Hh.
+        destruct Hh as [<-|Hh]; [specialize (I2 c l _ Hc Hx); lia|apply (P3 x Hx (objs_of_ids s kids x Hh))].
     - (* ENewCircuit *)
-      split; [|split]; cbn [handles circuits next_id].
-      + exact I1.
-      + intros c Hc i Hi. apply in_app_or in Hc. destruct Hc as [Hc|[<-|[]]]; [apply (I2 c Hc i Hi)|destruct Hi].
-      + rewrite map_app, I3. reflexivity.
+      apply (inv_snoc s gh [] true [] (next_id s) I); [lia|intros x []|intros _; split; [constructor|reflexivity]].
     - (* EMutate *)
       destruct (nth_error (handles s) h) as [g|] eqn:Eg; [|exact I].
       destruct (follow g path) as [t|] eqn:Et; [|exact I].
       assert (Hx : In (obj_id t) (ids_l (handles s))).
       { apply nth_error_In in Eg. apply (ids_l_in g); [exact Eg|]. apply (follow_ids g path t Et). }
-      rewrite (circuits_untouched s v (obj_id t) (fun x => set_params x ps) I Hx)
-        by (intros c Hc; apply map_set_params_id; exact Hc).
-      split; [|split]; cbn [handles circuits next_id]; rewrite ?ids_l_set_params; assumption.
+      apply (inv_relabel s gh _ gh I); [intros g0 y Hy; left; rewrite ids_set_params in Hy; exact Hy|reflexivity|].
+      intros c l vl' Hc Hg. exists vl'. split; [exact Hg|]. split; [apply ids_l_set_params|].
+      destruct (I3 c l vl' Hc Hg) as [_ [P2 [P3 _]]]. rewrite map_set_params_id; [exact P2|].
+      intros Hin. apply (P3 _ Hin Hx).
     - (* ESetKid *)
       destruct (nth_error (handles s) h) as [g|] eqn:Eg; [|exact I].
       destruct (nth_error (handles s) h2) as [new|] eqn:En; [|exact I].
@@ -261,91 +483,199 @@ Section Step.
       destruct (occurs (obj_id t) new); [exact I|].
       assert (Hx : In (obj_id t) (ids_l (handles s))).
       { apply nth_error_In in Eg. apply (ids_l_in g); [exact Eg|]. apply (follow_ids g path t Et). }
-      rewrite (circuits_untouched s v (obj_id t) (fun x => set_kid x i new) I Hx)
-        by (intros c Hc; apply map_set_kid_id; exact Hc).
-      assert (Hsub : forall y, In y (ids_l (map (set_kid (obj_id t) i new) (handles s))) -> In y (ids_l (handles s))).
-      { intros y Hy. apply in_flat_map in Hy. destruct Hy as [g' [Hg' Hy]].
-        apply in_map_iff in Hg'. destruct Hg' as [g0 [<- Hg0]].
-        apply ids_set_kid in Hy. destruct Hy as [Hy|Hy].
-        - apply (ids_l_in g0); assumption.
-        - apply nth_error_In in En. apply (ids_l_in new); assumption. }
-      split; [|split]; cbn [handles circuits next_id].
-      + intros y Hy. apply I1, Hsub, Hy.
-      + intros c Hc y Hy. destruct (I2 c Hc y Hy) as [A B]. split; [exact A|]. intros Hh. apply B, Hsub, Hh.
-      + exact I3.
+      apply (inv_relabel s gh _ gh I); [|reflexivity|].
+      + intros g0 y Hy. apply ids_set_kid in Hy. destruct Hy as [Hy|Hy]; [left; exact Hy|right].
+        apply nth_error_In in En. apply (ids_l_in new); assumption.
+      + intros c l vl' Hc Hg. exists vl'. split; [exact Hg|]. destruct (I3 c l vl' Hc Hg) as [_ [P2 [P3 _]]].
+        rewrite map_set_kid_id; [split; [reflexivity|exact P2]|]. intros Hin. apply (P3 _ Hin Hx).
     - (* EAppendGate *)
       destruct (nth_error (handles s) h) as [g|] eqn:Eg; [|exact I].
       pose proof (copy_erase deep g (next_id s)) as [Ee En].
       pose proof (copy_fresh deep all_deep g (next_id s)) as Fr.
+      pose proof (copy_nodup deep all_deep g (next_id s)) as Nd.
       destruct (copy deep (next_id s) g) as [g' n']. cbn [fst snd] in *.
-      apply (inv_builder s v c [g'] n' (fun l => l ++ [g']) (fun l => l ++ [erase g])); auto; try lia.
+      apply (inv_builder s gh c [g'] n' (fun l => l ++ [g']) (fun l => l ++ [erase g])); auto; try lia.
       + intros y Hy. unfold ids_l in Hy. cbn in Hy. rewrite app_nil_r in Hy. apply Fr, Hy.
-      + intros l y Hy. rewrite ids_l_app in Hy. apply in_app_or in Hy. tauto.
+      + unfold ids_l. cbn. rewrite app_nil_r. exact Nd.
+      + intros l y. rewrite ids_l_app. split; [apply in_app_or|apply in_or_app].
+      + intros l Nl Hd. rewrite ids_l_app. apply nodup_app; [exact Nl| |exact Hd]. unfold ids_l. cbn. rewrite app_nil_r. exact Nd.
       + intros l. rewrite map_app. cbn. rewrite Ee. reflexivity.
     - (* EPrependGate *)
       destruct (nth_error (handles s) h) as [g|] eqn:Eg; [|exact I].
       pose proof (copy_erase deep g (next_id s)) as [Ee En].
       pose proof (copy_fresh deep all_deep g (next_id s)) as Fr.
+      pose proof (copy_nodup deep all_deep g (next_id s)) as Nd.
       destruct (copy deep (next_id s) g) as [g' n']. cbn [fst snd] in *.
-      apply (inv_builder s v c [g'] n' (fun l => g' :: l) (fun l => erase g :: l)); auto; try lia.
+      assert (Nd' : NoDup (ids_l [g'])) by (unfold ids_l; cbn; rewrite app_nil_r; exact Nd).
+      apply (inv_builder s gh c [g'] n' (fun l => g' :: l) (fun l => erase g :: l)); auto; try lia.
       + intros y Hy. unfold ids_l in Hy. cbn in Hy. rewrite app_nil_r in Hy. apply Fr, Hy.
-      + intros l y Hy. change (g' :: l) with ([g'] ++ l) in Hy. rewrite ids_l_app in Hy. apply in_app_or in Hy. tauto.
+      + intros l y. change (g' :: l) with ([g'] ++ l). rewrite ids_l_app. split; intros H.
+        * apply in_app_or in H. tauto.
+        * apply in_or_app. tauto.
+      + intros l Nl Hd. change (g' :: l) with ([g'] ++ l). rewrite ids_l_app. apply nodup_app; [exact Nd'|exact Nl|].
+        intros x Hx Hl. apply (Hd x Hl Hx).
       + intros l. cbn. rewrite Ee. reflexivity.
     - (* EAppendCircuit *)
-      rewrite <- I3, nth_error_map'.
-      destruct (nth_error (circuits s) c2) as [o|] eqn:Eo; cbn [option_map]; [|rewrite I3; exact I].
+      unfold denotes. destruct (nth_error (circuits s) c2) as [o|] eqn:Eo; cbn [option_map]; [|exact I].
       pose proof (copy_list_erase deep o (next_id s)) as [Ee En].
       pose proof (copy_list_fresh deep all_deep o (next_id s)) as Fr.
+      pose proof (copy_list_nodup deep all_deep o (next_id s)) as Nd.
       destruct (copy_list deep (next_id s) o) as [o' n']. cbn [fst snd] in *.
-      apply (inv_builder s (map (map erase) (circuits s)) c o' n' (fun l => l ++ o') (fun l => l ++ map erase o));
-        [rewrite I3; exact I|exact En|exact Fr| |].
-      + intros l y Hy. rewrite ids_l_app in Hy. apply in_app_or in Hy. tauto.
+      apply (inv_builder s gh c o' n' (fun l => l ++ o') (fun l => l ++ map erase o)); auto.
+      + intros l y. rewrite ids_l_app. split; [apply in_app_or|apply in_or_app].
+      + intros l Nl Hd. rewrite ids_l_app. apply nodup_app; assumption.
       + intros l. rewrite map_app, Ee. reflexivity.
     - (* EPrependCircuit *)
-      rewrite <- I3, nth_error_map'.
-      destruct (nth_error (circuits s) c2) as [o|] eqn:Eo; cbn [option_map]; [|rewrite I3; exact I].
+      unfold denotes. destruct (nth_error (circuits s) c2) as [o|] eqn:Eo; cbn [option_map]; [|exact I].
       pose proof (copy_list_erase deep o (next_id s)) as [Ee En].
       pose proof (copy_list_fresh deep all_deep o (next_id s)) as Fr.
+      pose proof (copy_list_nodup deep all_deep o (next_id s)) as Nd.
       destruct (copy_list deep (next_id s) o) as [o' n']. cbn [fst snd] in *.
-      apply (inv_builder s (map (map erase) (circuits s)) c o' n' (fun l => o' ++ l) (fun l => map erase o ++ l));
-        [rewrite I3; exact I|exact En|exact Fr| |].
-      + intros l y Hy. rewrite ids_l_app in Hy. apply in_app_or in Hy. tauto.
+      apply (inv_builder s gh c o' n' (fun l => o' ++ l) (fun l => map erase o ++ l)); auto.
+      + intros l y. rewrite ids_l_app. split; intros H.
+        * apply in_app_or in H. tauto.
+        * apply in_or_app. tauto.
+      + intros l Nl Hd. rewrite ids_l_app. apply nodup_app; [exact Nd|exact Nl|]. intros x Hx Hl. apply (Hd x Hl Hx).
       + intros l. rewrite map_app, Ee. reflexivity.
+    - (* ENewCircuitOf *)
+      destruct ctor.
+      + pose proof (copy_list_erase deep (objs_of s hs) (next_id s)) as [Ee En].
+        pose proof (copy_list_fresh deep all_deep (objs_of s hs) (next_id s)) as Fr.
+        pose proof (copy_list_nodup deep all_deep (objs_of s hs) (next_id s)) as Nd.
+        destruct (copy_list deep (next_id s) (objs_of s hs)) as [o' n']. cbn [fst snd] in *.
+        apply (inv_snoc s gh o' true _ n' I En); [intros x Hx; right; apply Fr, Hx|intros _; split; [exact Nd|exact Ee]].
+      + apply (inv_snoc s gh (objs_of s hs) false _ (next_id s) I); [lia| |discriminate].
+        intros x Hx. left. split; [apply (objs_of_ids s hs x Hx)|reflexivity].
+    - (* EMutateGate *)
+      set (fv := fun l : list gval => match nth_error l i with Some v => replace_nth i (vset path ps v) l | None => l end).
+      assert (Noop : forall l0, nth_error (circuits s) c = Some l0 ->
+                (nth_error l0 i = None \/ exists g, nth_error l0 i = Some g /\ follow g path = None) -> Inv s (gupd gh c fv)).
+      { intros l0 Ec Hno. apply inv_ghost with gh; [exact I|apply length_gupd|]. intros c1 l vl' Hc Hg. rewrite nth_gupd in Hg.
+        destruct (Nat.eqb_spec c1 c) as [->|Hne]; [|exists vl'; split; [exact Hg|apply (I3 c1 l vl' Hc Hg)]].
+        destruct (nth_error gh c) as [[b vl]|] eqn:Eg; [|discriminate]. cbn in Hg. injection Hg as -> <-.
+        exists vl. split; [reflexivity|]. rewrite Ec in Hc. injection Hc as <-.
+        destruct (I3 c l0 vl Ec Eg) as [_ [P2 _]]. subst vl. unfold fv. rewrite nth_error_map'.
+        destruct Hno as [Hn|[g [Hn Hf]]]; rewrite Hn; cbn [option_map]; [reflexivity|].
+        rewrite (vset_follow_none ps path g Hf). symmetry. apply replace_nth_same. rewrite nth_error_map', Hn. reflexivity. }
+      destruct (nth_error (circuits s) c) as [l0|] eqn:Ec.
+      2:{ apply inv_ghost with gh; [exact I|apply length_gupd|]. intros c1 l vl' Hc Hg. rewrite nth_gupd in Hg.
+          destruct (Nat.eqb_spec c1 c) as [->|]; [congruence|]. exists vl'. split; [exact Hg|apply (I3 c1 l vl' Hc Hg)]. }
+      destruct (nth_error l0 i) as [g|] eqn:Ei; [|apply (Noop l0 eq_refl); left; exact Ei].
+      destruct (follow g path) as [t|] eqn:Et; [|apply (Noop l0 eq_refl); right; exists g; split; [exact Ei|exact Et]].
+      clear Noop.
+      assert (Hx : In (obj_id t) (ids_l l0)).
+      { apply (ids_l_in g); [eapply nth_error_In; exact Ei|apply (follow_ids g path t Et)]. }
+      apply (inv_relabel s gh _ (gupd gh c fv) I); [intros g0 y Hy; left; rewrite ids_set_params in Hy; exact Hy|apply length_gupd|].
+      intros c1 l vl' Hc Hg. rewrite nth_gupd in Hg. destruct (Nat.eqb_spec c1 c) as [->|Hne].
+      + destruct (nth_error gh c) as [[b vl]|] eqn:Eg; [|discriminate]. cbn in Hg. injection Hg as -> <-.
+        rewrite Ec in Hc. injection Hc as <-. exists vl. split; [reflexivity|]. split; [apply ids_l_set_params|].
+        destruct (I3 c l0 vl Ec Eg) as [P1 [P2 _]]. subst vl.
+        rewrite (erase_relabel_circuit ps l0 i g path t P1 Ei Et). unfold fv. rewrite nth_error_map', Ei. reflexivity.
+      + exists vl'. split; [exact Hg|]. split; [apply ids_l_set_params|].
+        destruct (I3 c1 l vl' Hc Hg) as [_ [P2 [_ P4]]]. rewrite map_set_params_id; [exact P2|].
+        intros Hin. apply (P4 (obj_id t) c l0 Hin (not_eq_sym Hne) Ec Hx).
   Qed.
 
-  Lemma vrun_inv es : forall s v, Inv s v -> Inv (fst (vrun deep s v es)) (snd (vrun deep s v es)).
-  Proof. induction es as [|e es IH]; intros s v I; [exact I|]. cbn [vrun]. apply IH. apply step_inv. exact I. Qed.
+  Lemma vrun_inv es : forall s gh, Inv s gh -> Inv (fst (vrun deep ctor s gh es)) (snd (vrun deep ctor s gh es)).
+  Proof. induction es as [|e es IH]; intros s gh I; [exact I|]. cbn [vrun]. apply IH. apply step_inv. exact I. Qed.
 
-  Lemma init_inv : Inv init [].
-  Proof. split; [|split]; cbn; try reflexivity; intros; contradiction. Qed.
+  Lemma vrun_fst es : forall s gh, fst (vrun deep ctor s gh es) = fold_left (step deep ctor) es s.
+  Proof. induction es as [|e es IH]; intros s gh; [reflexivity|]. cbn. apply IH. Qed.
 
-  Lemma vrun_fst es : forall s v, fst (vrun deep s v es) = fold_left (step deep) es s.
-  Proof. induction es as [|e es IH]; intros s v; [reflexivity|]. cbn. apply IH. Qed.
-
-  (** HISTORIES: after any sequence of builder calls and mutations, every circuit denotes the
-      values its gates had when they were added *)
-  Theorem histories_by_value es :
-    map (map erase) (circuits (run deep es)) = snd (vrun deep init [] es).
+  (** HISTORIES: after any sequence of builder calls, list constructions and mutations (of the
+      caller's objects and through the circuits' own gate lists) every by-value circuit denotes
+      the values its gates had when they were added (as mutated through its own gate list) *)
+  Theorem histories_by_value es c l vl :
+    nth_error (circuits (run deep ctor es)) c = Some l ->
+    nth_error (snd (vrun deep ctor init [] es)) c = Some (true, vl) ->
+    map erase l = vl.
   Proof.
-    pose proof (vrun_inv es init [] init_inv) as [_ [_ I3]].
-    rewrite vrun_fst in I3. exact I3.
+    pose proof (vrun_inv es init [] init_inv) as [_ [_ [_ I3]]]. rewrite vrun_fst in I3.
+    intros Hc Hg. apply (I3 c l vl Hc Hg).
   Qed.
 
-  (** and no object of a circuit is reachable from a caller handle *)
-  Theorem histories_separated es c i :
-    In c (circuits (run deep es)) -> In i (ids_l c) -> ~ In i (ids_l (handles (run deep es))).
+  (** and its objects are pairwise distinct, not reachable from a caller handle, not shared with another circuit *)
+  Theorem histories_separated es c l vl :
+    nth_error (circuits (run deep ctor es)) c = Some l ->
+    nth_error (snd (vrun deep ctor init [] es)) c = Some (true, vl) ->
+    NoDup (ids_l l) /\
+    (forall x, In x (ids_l l) -> ~ In x (ids_l (handles (run deep ctor es)))) /\
+    (forall x c' l', In x (ids_l l) -> c' <> c -> nth_error (circuits (run deep ctor es)) c' = Some l' -> ~ In x (ids_l l')).
   Proof.
-    pose proof (vrun_inv es init [] init_inv) as [_ [I2 _]].
-    rewrite vrun_fst in I2. intros Hc Hi. apply (I2 c Hc i Hi).
+    pose proof (vrun_inv es init [] init_inv) as [_ [_ [_ I3]]]. rewrite vrun_fst in I3.
+    intros Hc Hg. destruct (I3 c l vl Hc Hg) as [P1 [_ [P3 P4]]]. split; [exact P1|]. split; [exact P3|exact P4].
+  Qed.
+
+  (** the ghost has one entry per circuit *)
+  Lemma histories_ghost_length es : length (snd (vrun deep ctor init [] es)) = length (circuits (run deep ctor es)).
+  Proof. pose proof (vrun_inv es init [] init_inv) as [I0 _]. rewrite vrun_fst in I0. exact I0. Qed.
+
+  (** histories in which every circuit is by value: no list constructor, or a copying one *)
+  Definition not_list_ctor (e : event) : Prop := match e with ENewCircuitOf _ => False | _ => True end.
+  Definition all_pure (gh : ghost) : Prop := forall c b vl, nth_error gh c = Some (b, vl) -> b = true.
+
+  Lemma vstep_all_pure s gh e : ctor = true \/ not_list_ctor e -> all_pure gh -> all_pure (vstep ctor s gh e).
+  Proof.
+    intros Hc Hp.
+    assert (G : forall c f, all_pure (gupd gh c f)).
+    { intros c f c' b vl H. rewrite nth_gupd in H. destruct (Nat.eqb c' c); [|apply (Hp c' b vl H)].
+      destruct (nth_error gh c') as [[b0 l0]|] eqn:E; [|discriminate]. cbn in H. injection H as <- _. apply (Hp c' b0 l0 E). }
+    assert (Sn : forall b0 v0, b0 = true -> all_pure (gh ++ [(b0, v0)])).
+    { intros b0 v0 Hb c' b vl H. rewrite nth_error_snoc in H. destruct (Nat.ltb c' (length gh)); [apply (Hp c' b vl H)|].
+      destruct (Nat.eqb c' (length gh)); [|discriminate]. injection H as <- _. exact Hb. }
+    destruct e as [cls ps kids| |h path ps|h path i h2|c h|c h|c c2|c c2|hs|c i path ps]; cbn [vstep]; try exact Hp.
+    - apply Sn. reflexivity.
+    - destruct (nth_error (handles s) h); [apply G|exact Hp].
+    - destruct (nth_error (handles s) h); [apply G|exact Hp].
+    - destruct (denotes s c2); [apply G|exact Hp].
+    - destruct (denotes s c2); [apply G|exact Hp].
+    - apply Sn. destruct Hc as [Hc|[]]. exact Hc.
+    - apply G.
+  Qed.
+
+  Lemma nth_error_ext' {A} : forall (a b : list A), (forall c, nth_error a c = nth_error b c) -> a = b.
+  Proof.
+    induction a as [|x a IH]; intros [|y b] H; [reflexivity|specialize (H 0); discriminate|specialize (H 0); discriminate|].
+    pose proof (H 0) as H0. cbn in H0. injection H0 as ->. f_equal. apply IH. intros c. apply (H (Datatypes.S c)).
+  Qed.
+
+  Theorem histories_by_value_all es :
+    ctor = true \/ Forall not_list_ctor es ->
+    map (map erase) (circuits (run deep ctor es)) = map snd (snd (vrun deep ctor init [] es)).
+  Proof.
+    intros Hc.
+    assert (P : forall es s gh, (ctor = true \/ Forall not_list_ctor es) -> all_pure gh -> all_pure (snd (vrun deep ctor s gh es))).
+    { clear es Hc. induction es as [|e es IH]; intros s gh Hc Hp; [exact Hp|]. cbn [vrun]. apply IH.
+      - destruct Hc as [Hc|Hc]; [left; exact Hc|right; inversion Hc; assumption].
+      - apply vstep_all_pure; [|exact Hp]. destruct Hc as [Hc|Hc]; [left; exact Hc|right; inversion Hc; assumption]. }
+    specialize (P es init [] Hc). assert (P0 : all_pure []) by (intros c b vl H; destruct c; discriminate). specialize (P P0).
+    pose proof (vrun_inv es init [] init_inv) as [I0 [_ [_ I3]]]. rewrite vrun_fst in I0, I3. fold (run deep ctor es) in I0, I3.
+    apply nth_error_ext'. intros c. rewrite !nth_error_map'.
+    destruct (nth_error (circuits (run deep ctor es)) c) as [l|] eqn:El;
+      destruct (nth_error (snd (vrun deep ctor init [] es)) c) as [[b vl]|] eqn:Eg; cbn [option_map].
+    - rewrite (P c b vl Eg) in Eg. destruct (I3 c l vl El Eg) as [_ [P2 _]]. cbn. rewrite P2. reflexivity.
+    - apply nth_error_lt in El. apply nth_error_None in Eg. lia.
+    - apply nth_error_lt in Eg. apply nth_error_None in El. lia.
+    - reflexivity.
   Qed.
 End Step.
 
 (** conversely: one shallow __copy__ on a class with a gate-valued field breaks by-value capture *)
-Theorem shallow_copy_refuted (deep : nat -> bool) cls0 : deep cls0 = false ->
+Theorem shallow_copy_refuted (deep : nat -> bool) (ctor : bool) cls0 : deep cls0 = false ->
   let es := [ENew cls0 [] []; ENew cls0 [] [0]; ENewCircuit; EAppendGate 0 1; EMutate 0 [] [1%Z]] in
-  map (map erase) (circuits (run deep es)) <> snd (vrun deep init [] es).
+  exists l vl, nth_error (circuits (run deep ctor es)) 0 = Some l /\
+               nth_error (snd (vrun deep ctor init [] es)) 0 = Some (true, vl) /\ map erase l <> vl.
 Proof.
   intros H. cbv zeta. unfold run. cbn [fold_left vrun step vstep init handles circuits next_id
-    nth_error flat_map app follow obj_id obj_kids fst snd erase map].
-  rewrite !copy_unfold, H. cbn. discriminate.
+    nth_error flat_map app follow obj_id obj_kids fst snd erase map objs_of].
+  rewrite !copy_unfold, H. cbn. eexists. eexists. split; [reflexivity|]. split; [reflexivity|discriminate].
 Qed.
+
+(** and the non-copying list constructor breaks it for the circuit it makes (the known finding
+    Circuit.__init__:gates-captured-by-reference): x = Gate(); c = Circuit([x]); mutate x *)
+Theorem ctor_by_reference_refuted (deep : nat -> bool) cls0 :
+  let es := [ENew cls0 [] []; ENewCircuitOf [0]; EMutate 0 [] [1%Z]] in
+  exists l, nth_error (circuits (run deep false es)) 0 = Some l /\
+            nth_error (snd (vrun deep false init [] es)) 0 = Some (false, [GVal cls0 [] []]) /\
+            map erase l <> [GVal cls0 [] []].
+Proof. cbv zeta. cbn. eexists. split; [reflexivity|]. split; [reflexivity|discriminate]. Qed.
